@@ -79,6 +79,7 @@ class Harness:
 
 ANN = re.compile(r"^\s*//\s*@h\s+(.*)$")
 FN = re.compile(r"^\s*(?:pub\s+)?fn\s+([A-Za-z0-9_]+)\s*\(")
+MACRO = re.compile(r"^\s*[a-z_0-9]+!\(\s*([A-Za-z0-9_]+)\s*,")
 UNW = re.compile(r"#\[kani::unwind\((\d+)\)\]")
 
 
@@ -113,6 +114,11 @@ def scan_file(path, modpath, where):
                 if f:
                     if is_proof:
                         out.append(Harness(modpath + "::" + f.group(1), where, meta, unwind, path, j + 1))
+                    break
+                mac = MACRO.match(lines[j])
+                if mac:
+                    # harness defined through a local macro: `some_macro!(harness_name, ...)`
+                    out.append(Harness(modpath + "::" + mac.group(1), where, meta, unwind, path, j + 1))
                     break
                 j += 1
             i = j
@@ -351,6 +357,10 @@ def parse_output(r):
         elif re.search(r"^error", out, re.M):
             why = "build/driver error: " + (re.search(r"^error.*", out, re.M).group(0)[:200])
         r.verdict, r.reason = "INCONCLUSIVE", why
+        return
+    errs = [c for c in r.checks if c["status"] == "ERROR"]
+    if errs:
+        r.verdict, r.reason = "INCONCLUSIVE", "solver/back-end error (typically out of memory): %d checks with status ERROR" % len(errs)
         return
     fails = [c for c in r.checks if c["status"] == "FAILURE"]
     undet = [c for c in r.checks if c["status"] == "UNDETERMINED"]
